@@ -22,6 +22,8 @@ groups = []
 for (name, entry, enforce, second, enum_ce, cost) in funcs:
     for tier, shapes in (('quick', QUICK), ('thorough', THOROUGH)):
         for (nseg, ci) in shapes:
+            if name == 'delete' and nseg == 3:
+                continue          # measured: > 2400 s per shape with 3 segments (delete is checked on 1..2 segments only)
             ces = list(range(-1, nseg)) if enum_ce else [None]
             nins = [1] if tier == 'quick' or not second else [1, 2]
             for ce in ces:
